@@ -115,16 +115,16 @@ Definition classify (line : str) : lkind :=
            end
   end.
 
-(* utils::unescape_git_path: a path that does not both start and end with a double quote is
-   returned as it is; otherwise the C-style quoting is undone (dq).  The one-character string
-   consisting of a double quote makes the slice [1..0] panic (None). *)
-Definition unescape_git_path (dq : str -> str) (s : str) : option str :=
+(* utils::unescape_git_path: a path shorter than two bytes (in particular the lone double quote), or
+   one that does not both start and end with a double quote, is returned as it is; otherwise the
+   C-style quoting is undone (dq). *)
+Definition unescape_git_path (dq : str -> str) (s : str) : str :=
   if first_is c_dq s && last_is c_dq s then
     match s with
-    | [_] => None
-    | _ => Some (dq s)
+    | [_] => s
+    | _ => dq s
     end
-  else Some s.
+  else s.
 
 Definition hunk_of_cur (c : pcur) (m : pmeta) (f_end o_end : N) : hunk :=
   mkHunk (c_final c) f_end (c_orig c) o_end (c_sha c) (m_author m) (m_boundary m) None (m_filename m).
@@ -152,10 +152,7 @@ Fixpoint parse_lines (dq : str -> str) (ls : list str) (acc : list hunk) (c : op
       | LAuthor a => parse_lines dq ls' acc c (mkMeta a (m_boundary m) (m_filename m))
       | LBoundary => parse_lines dq ls' acc c (mkMeta (m_author m) true (m_filename m))
       | LFilename raw =>
-          match unescape_git_path dq raw with
-          | Some f => parse_lines dq ls' acc c (mkMeta (m_author m) (m_boundary m) f)
-          | None => Panic
-          end
+          parse_lines dq ls' acc c (mkMeta (m_author m) (m_boundary m) (unescape_git_path dq raw))
       | LHeader sha p2 p3 (Some p4) =>
           match flush_cur c m with
           | Ok hs =>
@@ -279,7 +276,7 @@ Definition bline_of_gline (x : gline) : bline :=
 
 (* unescape_git_path undoes what git printed *)
 Definition names_agree (dq : str -> str) (es : list gentry) : Prop :=
-  forall g, In g es -> unescape_git_path dq (g_filename_printed g) = Some (g_filename g).
+  forall g, In g es -> unescape_git_path dq (g_filename_printed g) = g_filename g.
 
 (* ------------------------------------------------------------------ (c) notes and the overlay *)
 
